@@ -6,6 +6,8 @@
 import EEM.Model.Serial
 import EEM.Bridge.Curve
 import EEM.Props.C11
+import EEM.Gen.SerialFootprint
+import EEM.Spec.SerialExempt
 
 namespace EEM.Props.C01
 open EEM EEM.Model EEM.Model.Serial EEM.Bridge EEM.Spec
@@ -62,5 +64,46 @@ theorem C01_daily_formula (s s' : Submodel ℝ) (x : X)
 /-! ### Non-vacuity -/
 example : submodelFromDoc (dumpsLoads (submodelToDoc EEM.Props.C11.exHeat)) = some EEM.Props.C11.exHeat :=
   C01_submodel_roundtrip _
+
+/-! ### The source's own footprint: what fit produces and predict consumes is what `from_dict` restores -/
+
+/-- attributes assigned on the fit path and read on the predict path that `from_dict` does not set and the frozen
+exemption list does not explain -/
+def unrestored (fitWrites predictReads restored exempt : List String) : List String :=
+  fitWrites.filter fun a => predictReads.contains a && !restored.contains a && !exempt.contains a
+
+open EEM.Gen.SerialFootprint EEM.Spec.SerialExempt in
+/-- **every piece of fitted state that `predict` reads is set by `from_dict`** — for all four families, on the
+footprint tables regenerated from the source on every run: nothing that flows from `fit` to `predict` lives
+outside the stored document (up to the frozen, reasoned exemptions of `EEM.Spec.SerialExempt`: attributes that
+predict recomputes before use, and a read that is dead on the predict path) -/
+theorem C01_src_fitted_state_is_restored :
+    unrestored daily_fit_writes daily_predict_reads daily_restored (exemptOf "daily") = [] ∧
+    unrestored billing_fit_writes billing_predict_reads billing_restored (exemptOf "billing") = [] ∧
+    unrestored hourly_fit_writes hourly_predict_reads hourly_restored (exemptOf "hourly") = [] ∧
+    unrestored caltrack_fit_writes caltrack_predict_reads caltrack_restored (exemptOf "caltrack") = [] := by
+  decide
+
+open EEM.Gen.SerialFootprint in
+/-- every top-level key `HourlyModel.from_dict` reads is one `to_dict` writes (no key is silently defaulted), and the
+gate state (`disqualification`, `warnings`, `baseline_timezone`, fittedness) is restored in every family that has it -/
+theorem C01_src_keys_and_gate_state :
+    (∀ k ∈ hourly_from_dict_keys, k ∈ hourly_to_dict_keys) ∧
+    (∀ a ∈ ["disqualification", "warnings", "baseline_timezone", "is_fitted"],
+        a ∈ daily_restored ∧ a ∈ billing_restored ∧ a ∈ hourly_restored) ∧
+    "is_fit" ∈ caltrack_restored := by
+  decide
+
+open EEM.Gen.SerialFootprint in
+/-- the tables are not empty shells: the hourly cluster table, bin edges and scalers do flow from fit to predict and
+are restored; the exemptions are real (each is produced by fit, read by predict and not set by `from_dict`) -/
+example :
+    (∀ a ∈ ["_df_temporal_clusters", "_T_bin_edges", "_T_edge_bin_coeffs", "_ts_features", "_categorical_features"],
+        a ∈ hourly_fit_writes ∧ a ∈ hourly_predict_reads ∧ a ∈ hourly_restored) ∧
+    ("params" ∈ daily_fit_writes ∧ "params" ∈ daily_predict_reads ∧ "params" ∈ daily_restored) ∧
+    ("df_meter" ∈ daily_fit_writes ∧ "df_meter" ∈ daily_predict_reads ∧ "df_meter" ∉ daily_restored) ∧
+    ("_ts_feature_norm" ∈ hourly_fit_writes ∧ "_ts_feature_norm" ∈ hourly_predict_reads
+        ∧ "_ts_feature_norm" ∉ hourly_restored) := by
+  decide
 
 end EEM.Props.C01
